@@ -198,6 +198,11 @@ def call_builtin(I, name, args, kwargs, node, frame):
             return VInt(_fn("int_of_str", z3.StringSort(), z3.IntSort())(v.t))
         if isinstance(v, VNone):
             raise E.PyExc(VExc("TypeError"), "int(None)")
+        if isinstance(v, VAny):
+            k = run.choose([("ok", None), ("ValueError", None), ("TypeError", None)], "int(opaque)")
+            if k:
+                raise E.PyExc(VExc(["ValueError", "TypeError"][k - 1]), "int()")
+            return VInt(_fn("int_of_any", AnySort, z3.IntSort())(v.t))
     if name == "float":
         v = args[0] if args else VReal(0)
         if isinstance(v, VReal):
@@ -303,7 +308,10 @@ def call_builtin(I, name, args, kwargs, node, frame):
         ls = [I.iterate_concrete(a) for a in args]
         return I.new_list([VTuple(t) for t in zip(*ls)])
     if name == "reversed":
-        return I.new_list(list(reversed(I.iterate_concrete(args[0]))))
+        try:
+            return I.new_list(list(reversed(I.iterate_concrete(args[0]))))
+        except E.Unsupported:
+            return VTuple([VStr("#reversed"), args[0]])
     if name == "sorted":
         if isinstance(args[0], VGen) or (isinstance(args[0], VRef) and not run.rec(args[0].oid).concrete):
             return I.fresh(("list", ("any",)), run.fresh_name("sorted"))
